@@ -21,6 +21,9 @@ type RequestWatcher struct {
 	defaultTTL       time.Duration
 	logger           zerolog.Logger
 	requestCount     atomic.Int64
+	// set by StopAll (under requestsMapMutex): nothing is registered afterwards,
+	// as nobody would be left to release it.
+	stopped bool
 }
 
 func NewRequestsWatcher(queueTTL time.Duration, logger zerolog.Logger) *RequestWatcher {
@@ -55,11 +58,11 @@ func (watcher *RequestWatcher) GetRequest(requestID string) (*Request, bool) {
 }
 
 // AddRequestIfBelow registers the request unless maxCount requests are
-// registered already. The test and the registration are one atomic step, so
-// concurrent arrivals cannot both take the last slot.
+// registered already or StopAll has run. The test and the registration are one
+// atomic step, so concurrent arrivals cannot both take the last slot.
 func (watcher *RequestWatcher) AddRequestIfBelow(req *Request, maxCount int64) bool {
 	watcher.requestsMapMutex.Lock()
-	if watcher.requestCount.Load() >= maxCount {
+	if watcher.stopped || watcher.requestCount.Load() >= maxCount {
 		watcher.requestsMapMutex.Unlock()
 		return false
 	}
@@ -86,9 +89,10 @@ func (watcher *RequestWatcher) RemoveFromWatchList(requestID string) {
 }
 
 func (watcher *RequestWatcher) StopAll() {
-	watcher.requestsMapMutex.RLock()
-	defer watcher.requestsMapMutex.RUnlock()
+	watcher.requestsMapMutex.Lock()
+	defer watcher.requestsMapMutex.Unlock()
 
+	watcher.stopped = true
 	for _, request := range watcher.requests {
 		// A request that is already processed (its removal from the watch list is
 		// asynchronous) or is being processed has had, or is about to get, its one
